@@ -39,6 +39,7 @@ ASSUMPTIONS = [
     "HTTP errors / malformed payloads are not modelled (the property defines no behaviour under them); the server links pages through _links.next.href relative to the base url",
     "query parameters are compared as a parsed multiset (name=value), not as a literal string",
     "zone rules: the reference uses the system tz database through zoneinfo, the client pytz (both must describe the same instants)",
+    "faults block (fault sequences): the owned transport raises requests.ConnectionError on request k..k+m-1 (every k, m = 1..3) of every page structure up to 4 (thorough 6) sessions / 4 (5) pages; giving up and retrying are both acceptable, duplicates / reordering / silent loss are not",
     "longchain block: one chain of 1200-1500 (thorough: up to 6000) one-session pages, some of them empty, through the time-series endpoint",
     "interleave block: 2-3 generators of one DataClient advanced in every distinct order of next() calls (capped at 1500 / 20000 orders per page menu, the cap is reported)",
 ]
@@ -88,6 +89,10 @@ def space(tier, seed):
         for comp in compositions(n, b["max_pages"]):
             items.append({"block": "pages", "sizes": list(comp)})
     items.append({"block": "bytime"})
+    for n in range(1, 5 if tier == "quick" else 7):
+        for comp in compositions(n, 4 if tier == "quick" else 5):
+            if len(comp) >= 2:
+                items.append({"block": "faults", "sizes": list(comp)})
     for n, every in ((1500, 0), (1200, 7)) + (((6000, 0), (5000, 3)) if tier == "thorough" else ()):
         items.append({"block": "longchain", "pages": n, "empty_every": every})
     items.append({"block": "interleave", "cap": 1500 if tier == "quick" else 20000})
@@ -598,8 +603,52 @@ def run_longchain(item, only=None):
     return viol, stats
 
 
+def run_faults(item, only=None):
+    """fault sequences: the transport drops the connection on chosen requests (every request index x 1..3 consecutive
+    faults). Whether the client gives up (the fault escapes the generator) or tries again is its business; what it has
+    yielded is always a duplicate-free prefix of the server's order, and if no fault escapes, it is everything."""
+    import requests as _real
+
+    viol, stats = [], {"n": 0, "states": [], "out": set(), "nt": False}
+    sizes = item["sizes"]
+    docs = [mkdoc(i) for i in range(sum(sizes))]
+    pages, k = [], 0
+    for sz in sizes:
+        pages.append(docs[k : k + sz])
+        k += sz
+    want = [d["_id"] for d in docs]
+    for first in range(len(sizes)):
+        for nf in (1, 2, 3):
+            ctx = {"fail_first": first, "faults": nf}
+            if only is not None and only != ctx:
+                continue
+            server = FakeServer(copy.deepcopy(pages), base=BASE, fail_at=range(first, first + nf))
+            got, escaped = [], None
+            stats["n"] += 1
+            try:
+                with owned_requests(server):
+                    for d in DataClient("tok-123").get_sessions("caltech"):
+                        got.append(d.get("_id"))
+                        if len(got) > len(want) + 3:
+                            break
+            except _real.exceptions.RequestException as exc:
+                escaped = exc
+            except Exception as exc:
+                guard(exc)
+                viol.append(("faults:exception:%s" % type(exc).__name__, "pages %s, connection dropped on request(s) %d..%d: %r" % (sizes, first, first + nf - 1, exc), repr(exc), None, ctx))
+                continue
+            stats["states"].append((tuple(sizes), first, nf, len(got), escaped is not None))
+            stats["out"].add(("faults", escaped is not None, len(got) == len(want)))
+            if got != want[: len(got)]:
+                viol.append(("faults:%s" % ("duplicate" if len(set(got)) < len(got) else "order"), "pages %s, connection dropped on request(s) %d..%d: yielded %s, server order is %s" % (sizes, first, first + nf - 1, got, want), got, want, ctx))
+            elif escaped is None and got != want:
+                viol.append(("faults:lost", "pages %s, connection dropped on request(s) %d..%d and no error surfaced: yielded %s of %s" % (sizes, first, first + nf - 1, got, want), got, want, ctx))
+    stats["nt"] = len(sizes) >= 3
+    return viol, stats
+
+
 def execute(item, only=None):
-    return {"longchain": run_longchain, "pages": run_pages, "bytime": run_bytime, "times": run_times, "interleave": run_interleave, "zonepair": run_zonepair}[item["block"]](item, only)
+    return {"faults": run_faults, "longchain": run_longchain, "pages": run_pages, "bytime": run_bytime, "times": run_times, "interleave": run_interleave, "zonepair": run_zonepair}[item["block"]](item, only)
 
 
 def run(item):
